@@ -118,6 +118,41 @@ def rule_reported_length(fb, res, rid="C04-R6"):
                       "decoder's stride (payload length + 16) walks into the middle of the message" % base)
 
 
+def rule_typed_ctor_keeps_size(fb, res, rid):
+    """A typed payload built from (data, size) holds exactly those `size` bytes: its constructor hands (data, size) on unchanged — to its
+    base, down to Payload(type, data, size) — and its body does not size the buffer again.  The validator judged the caller's (data, size);
+    an object that stores fewer bytes (cut to the announced data, to the header for some flag) reports another length than the wire's, and
+    its length fields, checked against the caller's size, now describe bytes it does not hold."""
+    n = 0
+    base = "ASAM::CMP::Payload"
+    for cls in sorted(fb.derived_from(base)):
+        short = cls.split("::")[-1]
+        for ctor in fb.fns(cls + "::" + short):
+            ps = ctor.params
+            if not (len(ps) >= 2 and ps[-2]["t"].get("k") == "ptr" and ps[-1]["t"].get("k") == "int" and ps[-1]["t"].get("bits", 0) >= 32):
+                continue
+            datap, sizep = ps[-2]["decl"], ps[-1]["decl"]
+            n += 1
+            fwd = None
+            for i in ctor.raw.get("inits", []) or []:
+                e = i.get("e")
+                if isinstance(e, dict) and e.get("k") in ("construct", "call") and (i.get("base") or i.get("delegating") or not i.get("field")):
+                    a = facts.effective_call(e).get("args", [])
+                    if len(a) >= 2:
+                        fwd = (strip_all_casts(a[-2]).get("decl") == datap and strip_all_casts(a[-1]).get("decl") == sizep, canon(a[-1]))
+            resized = [c for c in ctor.calls() if (c.get("callee") or {}).get("nm") in ("resize", "assign", "clear", "erase", "pop_back", "shrink_to_fit", "swap") and
+                       fb.is_payload_buffer(c.get("obj", {}))] if ctor.body else []
+            ok = fwd is not None and fwd[0] and not resized
+            res.check(ok, rid, "%s(data,size):holds-size-bytes" % short, ctor.loc, "hands (data, size) on unchanged and does not size the buffer again",
+                      "%s(data, size) %s: the object does not hold the `size` bytes its validator judged — getLength() differs from the wire length and "
+                      "its length fields describe bytes it does not have" %
+                      (cls, ("re-sizes its buffer (%s) after construction" % (resized[0].get("callee") or {}).get("nm")) if resized else
+                       ("passes `%s` on as the size" % (fwd[1] if fwd else "nothing"))))
+    if n < 7:
+        raise Broken("typed payload constructors (data, size) not found (%d)" % n)
+    return n
+
+
 def run(ctx):
     fb = ctx.fb()
     res = Result("C04")
@@ -489,6 +524,7 @@ def run(ctx):
         res.check(badv is None, "C04-R3", "invalid-only-for-protocol-reasons:%s" % cls, val.loc, "the validator looks at nothing but the size, %s" % (sorted(ALLOWED[cls]) or "no header field"),
                   "%s::isValidPayload marks payloads invalid for a reason the protocol does not give: %s" % (cls, badv))
     rule_reported_length(fb, res)
+    rule_typed_ctor_keeps_size(fb, res, "C04-R6")
     # ---- R5 positions
     obs, ast = accessors.analyse(fb, ctx.spec("layout.json"), scope=lambda cls, stem: cls in (CH, MH))
     for o in obs:
